@@ -85,3 +85,36 @@ func hangSite(dump string) string {
 	lines := strings.Split(dump, "\n")
 	return scriggoFrame(lines, 0)
 }
+
+// raceSig classifies a race report by the two conflicting accesses: the first
+// scriggo frame of each access stack (function names, sorted).
+func raceSig(report string) string {
+	lines := strings.Split(report, "\n")
+	var sites []string
+	for i, l := range lines {
+		t := strings.TrimSpace(l)
+		if (strings.HasPrefix(t, "Write at ") || strings.HasPrefix(t, "Read at ") ||
+			strings.HasPrefix(t, "Previous write at ") || strings.HasPrefix(t, "Previous read at ") ||
+			strings.HasPrefix(t, "Atomic ") || strings.HasPrefix(t, "Previous atomic ")) && len(sites) < 2 {
+			site := "?"
+			for _, f := range lines[i+1:] {
+				f = strings.TrimSpace(f)
+				if f == "" {
+					break
+				}
+				if strings.HasPrefix(f, scriggoMark) {
+					site = scriggoFrame([]string{f}, 0)
+					break
+				}
+			}
+			sites = append(sites, site)
+		}
+	}
+	for len(sites) < 2 {
+		sites = append(sites, "?")
+	}
+	if sites[1] < sites[0] {
+		sites[0], sites[1] = sites[1], sites[0]
+	}
+	return sites[0] + "|" + sites[1]
+}
